@@ -91,8 +91,11 @@ def chunkOf (s e : Int) (peers : Nat) : Int := (e - s + (peers : Int) - 1) / (pe
 /-- boundary `i` of the partition: `min (s + i·chunk) e` -/
 def bound (s e : Int) (peers : Nat) (i : Nat) : Int := min (s + (i : Int) * chunkOf s e peers) e
 
+/-- `Range<u64>` on a forward range. The only arithmetic requirement of the code: `n + peers - 1` must not
+    saturate (`e - s + p - 1 ≤ u64::MAX`), otherwise the chunk size is rounded *down* and the tail of the
+    range is lost. -/
 theorem genU64_elems {s e : Int} {i p : Nat} (hs : 0 ≤ s) (hse : s ≤ e) (he : e ≤ U64_MAX)
-    (hn : e - s ≤ 4611686018427387904) (hp1 : 1 ≤ p) (hp2 : (p : Int) ≤ 4611686018427387904) (hi : i < p) :
+    (hn : e - s + (p : Int) - 1 ≤ U64_MAX) (hp1 : 1 ≤ p) (hi : i < p) :
     ∃ a b, genU64 s e i p = .range a b ∧
       intRange a b = intRange (bound s e p i) (bound s e p (i + 1)) := by
   have hM : U64_MAX = 18446744073709551615 := rfl
@@ -100,12 +103,12 @@ theorem genU64_elems {s e : Int} {i p : Nat} (hs : 0 ≤ s) (hse : s ≤ e) (he 
   have hic : (i : Int) * chunkOf s e p ≤ (p : Int) * chunkOf s e p :=
     mul_le_of_le (by omega) c0
   have hic0 : 0 ≤ (i : Int) * chunkOf s e p := Int.mul_nonneg (by omega) c0
+  have hmax : max 0 (e - s) = e - s := by omega
   have hsat : satAdd 0 U64_MAX (e - s) ((p : Int) - 1) = e - s + (p : Int) - 1 := by
     unfold satAdd; omega
   have hp0 : ¬ p = 0 := by omega
-  have hlt : ¬ e < s := by omega
   unfold genU64
-  simp only [hlt, if_false, hp0, hsat]
+  simp only [hmax, hp0, if_false, hsat]
   have hprod : ¬ ((i : Int) * ((e - s + (p : Int) - 1) / (p : Int)) > U64_MAX) := by
     unfold chunkOf at hic; omega
   simp only [hprod, if_false]
@@ -120,73 +123,89 @@ theorem genU64_elems {s e : Int} {i p : Nat} (hs : 0 ≤ s) (hse : s ≤ e) (he 
   generalize (i : Int) * ((e - s + (p : Int) - 1) / (p : Int)) = x at *
   generalize ((e - s + (p : Int) - 1) / (p : Int)) = c at *
   omega
-theorem chkI64_of_bounds {v : Int} (h1 : I64_MIN ≤ v) (h2 : v ≤ I64_MAX) : chkI64 v = some v := by
-  simp [chkI64, h1, h2]
 
-theorem fromI64_of_bounds {t : Ty} {v : Int} (h1 : t.lo ≤ v) (h2 : v ≤ t.hi) : t.fromI64 v = some v := by
-  simp [Ty.fromI64, h1, h2]
+/-- `Range<u64>`, reversed or empty range: every replica (any index) gets an empty range, no panic. -/
+theorem genU64_reversed {s e : Int} (i : Nat) {p : Nat} (hs : 0 ≤ s) (hs' : s ≤ U64_MAX) (hes : e ≤ s)
+    (hp1 : 1 ≤ p) (hp2 : (p : Int) ≤ U64_MAX) : genU64 s e i p = .range s s := by
+  have hM : U64_MAX = 18446744073709551615 := rfl
+  have hmax : max 0 (e - s) = 0 := by omega
+  have hp0 : ¬ p = 0 := by omega
+  have hchunk : (satAdd 0 U64_MAX 0 ((p : Int) - 1)) / (p : Int) = 0 := by
+    apply Int.ediv_eq_zero_of_lt <;> unfold satAdd <;> omega
+  unfold genU64
+  simp only [hmax, hp0, if_false, hchunk, Int.mul_zero]
+  have h0 : ¬ ((0 : Int) > U64_MAX) := by omega
+  simp only [h0, if_false]
+  have h1 : satAdd 0 U64_MAX s 0 = s := by unfold satAdd; omega
+  rw [h1, h1]
+  congr 1
+  omega
 
-theorem asI64_of_le {t : Ty} {x : Int} (h : x ≤ I64_MAX) : t.asI64 x = x := by
-  have : ¬ x > I64_MAX := by omega
-  simp [Ty.asI64, this]
+theorem fromI128_of_bounds {t : Ty} {v : Int} (h1 : t.lo ≤ v) (h2 : v ≤ t.hi) : t.fromI128 v = some v := by
+  simp [Ty.fromI128, h1, h2]
 
 theorem Ty.lo_ge (t : Ty) : I64_MIN ≤ t.lo := by cases t <;> decide
 theorem Ty.lo_le (t : Ty) : t.lo ≤ 0 := by cases t <;> decide
+theorem Ty.hi_le (t : Ty) : t.hi ≤ U64_MAX := by cases t <;> decide
+theorem Ty.hi_ge (t : Ty) : 0 ≤ t.hi := by cases t <;> decide
 
-/-- The macro implementation on a forward range whose bounds are representable in `i64`, provided the
-    start offset `s + i·chunk` of replica `i` fits the element type (always true for the 64-bit types,
-    where the saturating addition clamps it at `i64::MAX ≤ t.hi`). -/
+/-- The macro implementation on a forward range: no side condition at all (every intermediate value is
+    below 2^67, far inside `i128`; both bounds are clamped into `[first, last]`, hence fit the type). -/
 theorem genMacro_elems {t : Ty} {s e : Int} {i p : Nat} (hs : t.lo ≤ s) (hse : s ≤ e) (he : e ≤ t.hi)
-    (he64 : e ≤ I64_MAX)
-    (hn : e - s ≤ 4611686018427387904) (hp1 : 1 ≤ p) (hp2 : (p : Int) ≤ 4611686018427387904) (hi : i < p)
-    (hfit : I64_MAX ≤ t.hi ∨ s + (i : Int) * chunkOf s e p ≤ t.hi) :
+    (hp1 : 1 ≤ p) (hp2 : (p : Int) ≤ U64_MAX) (hi : i < p) :
     ∃ a b, genMacro t s e i p = .range a b ∧
       intRange a b = intRange (bound s e p i) (bound s e p (i + 1)) := by
-  have hM : I64_MAX = 9223372036854775807 := rfl
+  have hU : U64_MAX = 18446744073709551615 := rfl
   have hm : I64_MIN = -9223372036854775808 := rfl
+  have hM : I128_MAX = 170141183460469231731687303715884105727 := rfl
+  have hmm : I128_MIN = -170141183460469231731687303715884105728 := rfl
   have hlo := t.lo_ge
-  have hlo0 := t.lo_le
+  have hhi := t.hi_le
   obtain ⟨c0, c1, c2⟩ := chunk_facts (n := e - s) (p := (p : Int)) (by omega) (by omega)
   have hic : (i : Int) * chunkOf s e p ≤ (p : Int) * chunkOf s e p :=
     mul_le_of_le (by omega) c0
   have hic0 : 0 ≤ (i : Int) * chunkOf s e p := Int.mul_nonneg (by omega) c0
-  have hsat : satAdd I64_MIN I64_MAX (e - s) ((p : Int) - 1) = e - s + (p : Int) - 1 := by
-    unfold satAdd; omega
+  have c0' : 0 ≤ chunkOf s e p := c0
+  have c2' : (p : Int) * chunkOf s e p ≤ e - s + (p : Int) - 1 := c2
+  have hmax : max (e - s) 0 = e - s := by omega
   have hp0 : ¬ p = 0 := by omega
-  have h1 : ¬ ((i : Int) > I64_MAX) := by omega
-  have h2 : ¬ ((p : Int) > I64_MAX) := by omega
-  have hs64 : t.asI64 s = s := asI64_of_le (by omega)
-  have he64' : t.asI64 e = e := asI64_of_le he64
-  have hchk : chkI64 (e - s) = some (e - s) := chkI64_of_bounds (by omega) (by omega)
   have htdiv : Int.tdiv (e - s + (p : Int) - 1) (p : Int) = chunkOf s e p := by
     unfold chunkOf
     exact Int.tdiv_eq_ediv_of_nonneg (by omega)
-  have hprod : chkI64 ((i : Int) * chunkOf s e p) = some ((i : Int) * chunkOf s e p) := by
-    apply chkI64_of_bounds
-    · omega
-    · unfold chunkOf at hic ⊢; omega
+  have hmul : satMul I128_MIN I128_MAX (i : Int) (chunkOf s e p) = (i : Int) * chunkOf s e p := by
+    unfold satMul; omega
   have e1 : ((i + 1 : Nat) : Int) * chunkOf s e p = (i : Int) * chunkOf s e p + chunkOf s e p := by
     rw [Int.natCast_succ, Int.add_mul, Int.one_mul]
   unfold genMacro
-  simp only [h1, h2, if_false, hs64, he64', hchk, hp0, hsat, htdiv, hprod]
-  have c0' : 0 ≤ chunkOf s e p := c0
-  have hstart : t.fromI64 (satAdd I64_MIN I64_MAX s ((i : Int) * chunkOf s e p))
-      = some (satAdd I64_MIN I64_MAX s ((i : Int) * chunkOf s e p)) := by
-    apply fromI64_of_bounds <;> unfold satAdd <;> omega
-  have hend : t.fromI64 (max (min (satAdd I64_MIN I64_MAX
-        (satAdd I64_MIN I64_MAX s ((i : Int) * chunkOf s e p)) (chunkOf s e p)) e) s)
-      = some (max (min (satAdd I64_MIN I64_MAX
-        (satAdd I64_MIN I64_MAX s ((i : Int) * chunkOf s e p)) (chunkOf s e p)) e) s) := by
-    apply fromI64_of_bounds <;> omega
-  simp only [hstart, hend]
+  simp only [hmax, hp0, if_false, htdiv, hmul]
+  generalize hx : (i : Int) * chunkOf s e p = x at *
+  generalize hc : chunkOf s e p = c at *
+  have hstart : max (min (satAdd I128_MIN I128_MAX s x) e) s = min (s + x) e := by
+    unfold satAdd; omega
+  rw [hstart]
+  have hend : max (min (satAdd I128_MIN I128_MAX (min (s + x) e) c) e) (min (s + x) e) = min (s + x + c) e := by
+    unfold satAdd; omega
+  rw [hend, fromI128_of_bounds (by omega) (by omega), fromI128_of_bounds (by omega) (by omega)]
   refine ⟨_, _, rfl, ?_⟩
-  apply intRange_congr
   unfold bound
-  rw [e1]
-  unfold satAdd
-  generalize (i : Int) * chunkOf s e p = x at *
-  generalize chunkOf s e p = c at *
-  omega
+  rw [hc, e1, hx, Int.add_assoc]
+
+/-- The macro implementation on a reversed or empty range: every replica (any index) gets the empty range
+    `first..first`, no panic. -/
+theorem genMacro_reversed {t : Ty} {s e : Int} (i : Nat) {p : Nat} (hs : t.lo ≤ s) (hs' : s ≤ t.hi)
+    (hes : e ≤ s) (hp1 : 1 ≤ p) : genMacro t s e i p = .range s s := by
+  have hp0 : ¬ p = 0 := by omega
+  have hmax : max (e - s) 0 = 0 := by omega
+  have htdiv : Int.tdiv (0 + (p : Int) - 1) (p : Int) = 0 := by
+    rw [Int.tdiv_eq_ediv_of_nonneg (by omega)]
+    apply Int.ediv_eq_zero_of_lt <;> omega
+  unfold genMacro
+  simp only [hmax, hp0, if_false, htdiv]
+  have hstart : ∀ y : Int, max (min y e) s = s := by intro y; omega
+  rw [hstart]
+  have hend : ∀ y : Int, max (min y e) s = s := hstart
+  rw [hend, fromI128_of_bounds hs hs']
+
 /-- "the per-replica chunks partition `[s, e)`": no replica panics, the concatenation of what the replicas
     `0, …, p-1` yield is exactly `s, s+1, …, e-1`, and everything replica `i` yields is smaller than
     everything replica `j > i` yields (so the chunks are disjoint and ordered). -/
